@@ -3,7 +3,8 @@
     Histories: [Call md path k | SetTable t | CleanupTick | ConnShutdown u] from any state. *)
 From Coq Require Import String List NArith Bool.
 From Fabio Require Import Lib.Outcome Lib.Bytes Model.GrpcPool Proofs.GrpcPool Model.GrpcTransport Proofs.GrpcTransport
-  Model.GrpcKeepalive Proofs.GrpcKeepalive Model.GrpcListeners Proofs.GrpcListeners.
+  Model.GrpcKeepalive Proofs.GrpcKeepalive Model.GrpcListeners Proofs.GrpcListeners
+  Model.GrpcInFlight Proofs.GrpcInFlight.
 From Fabio Require Model.Lookup Proofs.Lookup.
 Import ListNotations.
 Local Open Scope N_scope.
@@ -685,3 +686,75 @@ Theorem C16_shared_proxy_variant_refuted :
   l_begun_at (lrun false [] (l_init ex_ls_tls ex_ls_tbl) [ex_ls_call 1]) ex_ls_u = 1.
 Proof. exact shared_proxy_variant_refuted. Qed.
 Print Assumptions C16_shared_proxy_variant_refuted.
+
+(* ---- calls in flight across cleanup ticks, targets written with whatever scheme
+   (Model/GrpcInFlight.v): histories [FOp o | FBegin id md path k | FEnd id] ---- *)
+
+(* the table and the pool of a history with calls in flight are those of the plain history in
+   which every call in flight is a call: every theorem above about [run] applies *)
+Theorem C16_inflight_history_is_a_history : forall ng ops fs,
+  f_st (frun ng fs ops) = run ng (f_st fs) (flat_map fproj ops).
+Proof. exact frun_projects. Qed.
+Print Assumptions C16_inflight_history_is_a_history.
+
+(* From any well-formed state: a call that began on connection c of backend u -- u any target
+   URL -- is delivered when its backend ends it, whatever happened in between (calls to anybody,
+   other calls in flight beginning and ending, table changes, any number of cleanup ticks), as
+   long as no tick found u outside the table and u's connection was not shut down from outside;
+   c is still the one pooled connection of u and nothing was dialled for u in the meantime. *)
+Theorem C16_call_in_flight_outlives_cleanup : forall ng fs id m p k u c ops,
+  wf (s_pool (f_st fs)) ->
+  call_conn ng (f_st fs) m p k = Some (u, c) ->
+  undisturbed ng u (step ng (f_st fs) (Call m p k)) (flat_map fproj ops) ->
+  Forall (other_id id) ops ->
+  let fs' := frun ng (fstep ng fs (FBegin id m p k)) ops in
+  fly_of id (f_fly fs') = Some (u, c) /\
+  f_delivered fs' id = true /\
+  holds (s_pool (f_st fs')) u c /\
+  count_dials (s_pool (f_st fs')) u = count_dials (s_pool (step ng (f_st fs) (Call m p k))) u.
+Proof. exact inflight_survives. Qed.
+Print Assumptions C16_call_in_flight_outlives_cleanup.
+
+(* spelled out for a target written scheme://rest: the scheme is no hypothesis (http://host:port/
+   is what the consul registry writes for a service tagged without proto=grpc) *)
+Theorem C16_call_in_flight_any_scheme : forall ng fs id m p k sch rest c ops,
+  wf (s_pool (f_st fs)) ->
+  call_conn ng (f_st fs) m p k = Some (render sch rest, c) ->
+  undisturbed ng (render sch rest) (step ng (f_st fs) (Call m p k)) (flat_map fproj ops) ->
+  Forall (other_id id) ops ->
+  f_delivered (frun ng (fstep ng fs (FBegin id m p k)) ops) id = true.
+Proof. exact inflight_survives_any_scheme. Qed.
+Print Assumptions C16_call_in_flight_any_scheme.
+
+(* the other half of the clause as the code has it: once the backend has left the table the
+   first cleanup tick closes the connection under the call *)
+Theorem C16_call_in_flight_cut_after_leaving : forall ng fs id u c t,
+  fly_of id (f_fly fs) = Some (u, c) -> assoc u (p_pool (s_pool (f_st fs))) = Some c ->
+  ~ In u (table_urls t) ->
+  f_delivered (frun ng fs [FOp (SetTable t); FOp CleanupTick]) id = false.
+Proof. exact inflight_cut_after_leaving. Qed.
+Print Assumptions C16_call_in_flight_cut_after_leaving.
+
+Theorem C16_call_in_flight_nonvacuous :
+  wf (s_pool (f_st (f_init ex_ftbl))) /\
+  call_conn false (f_st (f_init ex_ftbl)) [] (bs "/pkg.Svc/Get") 0 = Some (ex_http, 0) /\
+  grpc_scheme ex_http = false /\
+  undisturbed false ex_http (step false (f_st (f_init ex_ftbl)) (Call [] (bs "/pkg.Svc/Get") 0)) (flat_map fproj ex_fops) /\
+  Forall (other_id 1) ex_fops /\
+  f_delivered (frun false (fstep false (f_init ex_ftbl) (FBegin 1 [] (bs "/pkg.Svc/Get") 0)) ex_fops) 1 = true /\
+  count_dials (s_pool (f_st (frun false (fstep false (f_init ex_ftbl) (FBegin 1 [] (bs "/pkg.Svc/Get") 0)) ex_fops))) ex_http = 1.
+Proof. exact inflight_nonvacuous. Qed.
+Print Assumptions C16_call_in_flight_nonvacuous.
+
+(* a cleanup that recognises only grpc:// and grpcs:// targets is not the code and breaks the
+   property: the pooled connection of a routed http:// backend, with a call in flight, is kept
+   by [p_tick] and dropped and closed by the variant *)
+Theorem C16_grpc_only_cleanup_variant_refuted :
+  let fs := fstep false (f_init ex_ftbl) (FBegin 1 [] (bs "/pkg.Svc/Get") 0) in
+  let s := s_pool (f_st fs) in
+  wf s /\ In ex_http (table_urls ex_ftbl) /\ holds s ex_http 0 /\
+  holds (p_tick (table_urls ex_ftbl) s) ex_http 0 /\
+  assoc ex_http (p_pool (p_tick_grpc_only (table_urls ex_ftbl) s)) = None /\
+  live (p_tick_grpc_only (table_urls ex_ftbl) s) 0 = false.
+Proof. exact grpc_only_cleanup_variant_refuted. Qed.
+Print Assumptions C16_grpc_only_cleanup_variant_refuted.
